@@ -60,10 +60,12 @@ def has_module_entry() -> bool:
 
 
 def write_yaml(path: str, nodes: list, run_space: Optional[dict] = None, trace: Optional[dict] = None,
-               extra: Optional[dict] = None) -> None:
+               extra: Optional[dict] = None, nested_run_space: Optional[dict] = None) -> None:
     import yaml
 
     doc: dict = {"extensions": list(EXT), "pipeline": {"nodes": nodes}}
+    if nested_run_space is not None:
+        doc["pipeline"]["run_space"] = nested_run_space     # legal alternative location (top level wins if both exist)
     if run_space is not None:
         doc["run_space"] = run_space
     if trace is not None:
